@@ -193,8 +193,23 @@ def root_cause(e: BaseException) -> str:
     return type(chain[-1]).__name__
 
 
+_DOCS: Dict[Any, Any] = {}
+
+
 def make_doc(seed: int, i: int, depth: int):
-    """a store document with 3 identifiables; returns (objects, json dict)"""
+    """a store document with 3 identifiables; returns (objects, json dict) — objects are never modified by the harness and are
+    shared between calls, the JSON document is a fresh copy"""
+    key = (seed, i, depth)
+    if key not in _DOCS:
+        if len(_DOCS) > 64:
+            _DOCS.clear()
+        objs, doc = _make_doc(seed, i, depth)
+        _DOCS[key] = (objs, json.dumps(doc))
+    objs, text = _DOCS[key]
+    return objs, json.loads(text)
+
+
+def _make_doc(seed: int, i: int, depth: int):
     from basyx.aas import model
     from basyx.aas.adapter.json import AASToJsonEncoder
     objs = [c03._make(seed, 5 * (3 * i + k) + (k % 3), depth, 0.35)[0] for k in range(3)]
@@ -380,7 +395,7 @@ def check_case(case: dict) -> Optional[C.Failing]:
         reader = lambda fs: read_json(json.loads(text), fs)  # noqa: E731
     else:
         from lxml import etree
-        root, damaged_id, op = damage_xml(objs, rng)
+        root, damaged_id, op = damage_xml(objs, rng, tuple(case["sweep"]) if "sweep" in case else None)
         if root is None:
             return None
         root, surface = xml_surface(root, rng)
@@ -448,19 +463,32 @@ def xml_surface(root, rng: random.Random):
     return etree.fromstring(etree.tostring(new)), how
 
 
-def damage_xml(objs, rng: random.Random):
+SWEEP_OPS = ["emptychildren", "retagchildren", "delete", "emptytext"]
+
+
+def damage_xml(objs, rng: random.Random, sweep=None):
+    """one damage operator on the XML document of `objs`; `sweep = (k, op)` applies `op` to the k-th element below the identifiables
+    (document order) instead of drawing both at random"""
     from lxml import etree
     from basyx.aas import model
     from basyx.aas.adapter.xml import xml_serialization
     root = xml_serialization.object_store_to_xml_element(model.DictObjectStore(objs))
     idents = [el for lst in root for el in lst]
-    target = rng.choice(idents)
     ns = "{https://admin-shell.io/aas/3/0}"
+    if sweep is not None:
+        allnodes = [(t, e) for t in idents for e in t.iter() if isinstance(e.tag, str) and e is not t]
+        if sweep[0] >= len(allnodes):
+            return None, None, None
+        target, e0 = allnodes[sweep[0]]
+        nodes, forced = [e0], sweep[1]
+    else:
+        target = rng.choice(idents)
+        nodes = [e for e in target.iter() if isinstance(e.tag, str) and e is not target]
+        rng.shuffle(nodes)
+        forced = None
     damaged_id = target.findtext(ns + "id")
-    nodes = [e for e in target.iter() if isinstance(e.tag, str) and e is not target]
-    rng.shuffle(nodes)
     for e in nodes[:40]:
-        op = rng.choice(XML_OPS)
+        op = forced or rng.choice(XML_OPS)
         if op == "pi":
             # a processing instruction is not damage: everything must come back
             where = rng.choice([root, target.getparent(), target, e])
@@ -516,6 +544,27 @@ def oracle(ctx: C.Ctx, cov: C.Coverage, n: Optional[int] = None, seed: Optional[
             cov.hit("oracle:" + fmt)
             if f and f.sig not in sigs:
                 sigs.add(f.sig); out.append(f)
+    # directed: structural damage at EVERY element of a few documents (containers emptied, members renamed / removed / blanked)
+    from basyx.aas import model as _m
+    from basyx.aas.adapter.xml import xml_serialization as _xs
+    from lxml import etree as _et
+    chosen = []
+    for i in range(60):            # documents that exercise the IEC 61360 content (mandatory language string sets, value lists)
+        objs_, _ = make_doc(seed, i, depth)
+        if b"dataSpecificationIec61360" in _et.tostring(_xs.object_store_to_xml_element(_m.DictObjectStore(objs_))):
+            chosen.append(i)
+        if len(chosen) >= (2 if ctx.tier == "quick" else 12):
+            break
+    for i in chosen:
+        objs_, _ = make_doc(seed, i, depth)
+        root_ = _xs.object_store_to_xml_element(_m.DictObjectStore(objs_))
+        nnodes = sum(1 for lst in root_ for t in lst for e in t.iter() if isinstance(e.tag, str) and e is not t)
+        for k in range(nnodes):
+            for op in SWEEP_OPS:
+                f = check_case({"seed": seed, "index": i, "fmt": "xml", "depth": depth, "sweep": [k, op]})
+                cov.hit("oracle:xml-sweep")
+                if f and f.sig not in sigs:
+                    sigs.add(f.sig); out.append(f)
     # not well-formed / non-AAS input: documented syntax error or empty result
     out += [f for f in garbage_checks(seed) if f.sig not in sigs]
     out += [f for f in foreign_forms_check() if f.sig not in sigs and f.sig not in {g.sig for g in out}]
